@@ -54,6 +54,12 @@ func runC19(c *Ctx, r *Report) {
 	c19Tables(c, r)
 	c19Simplifier(c, r)
 	c19Errors(c, r)
+	// (e) the binding wrapper of kfMath is taken from the pool per evaluation
+	n := borrow(c, r, func(c *Ctx, r *Report) { c05PoolTypestate(c, r, "X") }, "X/", "C19-e/", func(o Ob) bool { return strings.Contains(o.Key, "kfMath") }, false)
+	_ = n
+	r.Floor("C19-e/pool-init", 1, "kfMath's context wrapper")
+	r.Floor("C19-e/pool-return", 1, "kfMath's context wrapper")
+	r.Floor("C19-e/pool-return-once", 1, "kfMath's context wrapper")
 }
 
 func scannerGuard2(c *Ctx, r *Report) {
